@@ -427,6 +427,13 @@ func (s *Scanner) scanUrl() int {
 	for !unicode.IsSpace(s.peek()) && !s.isRuneNotIncludedInUrl(s.peek()) && s.peek() != EOF {
 		s.literal.WriteRune(s.next())
 	}
+	// A list separator, a statement terminator or a closing parenthesis at the end belongs to the surrounding
+	// syntax, not to the URL: "FROM file:a.csv, file:b.csv", "CSV(',', file:a.csv)", "FROM file:a.csv;"
+	for oldPos < s.srcPos && strings.ContainsRune(",;)", s.src[s.srcPos-1]) {
+		s.literal.Truncate(s.literal.Len() - 1)
+		s.srcPos--
+		s.char--
+	}
 	return s.srcPos - oldPos
 }
 
